@@ -590,6 +590,8 @@ class Sym:
                     m = r[1].lookup(name)
                     if m and m[1] == "method":
                         target = m[2]
+                elif r and r[0] == "module":  # module.function(..)
+                    target = r[1].functions.get(name)
         elif isinstance(f, ast.Name) and name not in st.envs[fr.fid]:
             r = self.p.resolve_name(fn.module, name)
             if r and r[0] == "func":
@@ -630,6 +632,8 @@ class Sym:
             if r and r[0] == "class":
                 m = r[1].lookup(name)
                 return (m[2], m[2].kind == "classmethod") if m and m[1] == "method" else (None, False)
+            if r and r[0] == "module":
+                return r[1].functions.get(name), False
         elif isinstance(f, ast.Name):
             r = self.p.resolve_name(fn.module, name)
             if r and r[0] == "func":
